@@ -26,6 +26,6 @@ for p in $props; do
   cp /tmp/seedtest_evidence_$p.$$.json $V/evidence/$p.json 2>/dev/null; rm -f /tmp/seedtest_evidence_$p.$$.json
   nv=$(echo "$out" | grep -c "^VIOLATION property=$p")
   echo "== $(basename $D) vs $p: exit=$rc violations=$nv"
-  echo "$out" | grep "^\[rejected\]\|INFRA\|purity\] .* [1-9][0-9]* differ\|tsan\] .* [1-9]" | head -6
+  echo "$out" | grep "^\[rejected\]\|^\[model-drift\]\|INFRA\|purity\] .* [1-9][0-9]* differ\|tsan\] .* [1-9]" | head -6
 done
 rm -rf $V/build/seed_$$
